@@ -6,9 +6,16 @@ FUNCTIONS = ['uxarray.grid.intersections.fast_constant_lat_intersections',
     'uxarray.core.dataarray.UxDataArray._slice_from_grid@dims=n_face',
     'uxarray.core.dataarray.UxDataArray._slice_from_grid@dims=n_node',
     'uxarray.core.dataarray.UxDataArray._slice_from_grid@dims=lev,n_edge',
-    'uxarray.core.dataarray.UxDataArray._slice_from_grid@dims=time']
+    'uxarray.core.dataarray.UxDataArray._slice_from_grid@dims=time',
+    'uxarray.core.dataarray.UxDataArray.isel@dims=time,n_face',
+    'uxarray.core.dataarray.UxDataArray.isel@dims=n_node',
+    'uxarray.core.dataarray.UxDataArray.isel@dims=lev,n_edge',
+    'uxarray.grid.grid.Grid.isel@n_node',
+    'uxarray.grid.grid.Grid.isel@n_edge',
+    'uxarray.grid.grid.Grid.isel@n_face',
+    'uxarray.grid.grid.Grid.isel@two_dims']
 STANDINS = ["subsets"]
 ASSUMPTIONS = []
 EXPLANATION = ""
-LEVEL_TEXT = 'fast_constant_lat_intersections proved (loop invariant): selected edges are exactly those whose end nodes lie strictly on opposite sides of the parallel, increasing, no duplicates; UxDataArray._slice_from_grid proved (dataflow): the data are indexed along THEIR OWN grid dimension with exactly the indices the grid slice recorded, and the result carries the sliced grid; slicing/renumbering of the grid itself, boxes, circles bounded (independent geometric oracle)'
+LEVEL_TEXT = 'fast_constant_lat_intersections proved (loop invariant): selected edges are exactly those whose end nodes lie strictly on opposite sides of the parallel, increasing, no duplicates; Grid.isel proved to dispatch each grid dimension to its own slicing routine, UxDataArray.isel proved to slice the grid of the array along the requested dimension and to re-attach the data through _slice_from_grid; UxDataArray._slice_from_grid proved (dataflow): the data are indexed along THEIR OWN grid dimension with exactly the indices the grid slice recorded, and the result carries the sliced grid; slicing/renumbering of the grid itself, boxes, circles bounded (independent geometric oracle)'
 LEVEL_NOTE = 'prange treated as range (A-NUMBA): each iteration writes only its own mask cell; argwhere/unique models'
